@@ -108,6 +108,16 @@ func (p Params[T]) Config(ctx context.Context, t *T, sources ...Source) (*Dials[
 	typeInstance := &Type{ptrify.Pointerify(typeOfT.Elem(), tVal.Elem())}
 	someoneWatching := false
 	for i, source := range sources {
+		if st := reflect.TypeOf(source); st != nil && !st.Comparable() {
+			// the monitor finds a reporting source's slot by comparing Source
+			// values, which panics for a value of an uncomparable type (a
+			// struct holding a slice or a map): stand in a pointer for it
+			if w, isWatcher := source.(Watcher); isWatcher {
+				source = &uncomparableWatcher{Source: source, Watcher: w}
+			} else {
+				source = &uncomparableSource{Source: source}
+			}
+		}
 		s := source
 
 		v, err := source.Value(valueCtx, typeInstance)
@@ -760,4 +770,15 @@ func NewType(t reflect.Type) *Type {
 	return &Type{
 		t: t,
 	}
+}
+
+// uncomparableSource and uncomparableWatcher stand for a Source whose dynamic
+// type cannot be compared with == wherever the monitor identifies sources.
+type uncomparableSource struct {
+	Source
+}
+
+type uncomparableWatcher struct {
+	Source
+	Watcher
 }
